@@ -26,16 +26,16 @@ CHECKS = {
     "C02": (
         "core+api",
         "exploration",
-        "Schedule-owning generated search with a model-free oracle: all 70 interleavings of 2 clients x 2 cget/cset cycles and all 90 of 3 clients x 1 cycle, for every choice of carried version and three initial states (71 040 cases, exhaustive for that scope), plus 100 k random programs/interleavings (u64-boundary versions, set, delete, two keys); every mutating request is bracketed by the harness' own cget and checked against the statement's decision table, then history invariants (one winner per version, versions never go back, final value). Atomicity of a request is validated by 30 (thorough: 600) multi-threaded counter runs through the whole in-process server.",
+        "Schedule-owning generated search with a model-free oracle: all 70 interleavings of 2 clients x 2 cget/cset cycles and all 90 of 3 clients x 1 cycle, for every choice of carried version, three initial states and two value regimes (every write a unique value / every write the value the key already holds; 142 080 cases, exhaustive for that scope), plus 800 k random programs/interleavings quick (u64-boundary versions, set, delete, two keys, a quarter of the writes value-preserving); every mutating request is bracketed by the harness' own cget and checked against the statement's decision table, then history invariants (one winner per version, versions never go back, final value). Atomicity of a request is validated by 240 (thorough: 600) multi-threaded counter runs through the whole in-process server, and the client library's own update() retry loop by 64 (thorough: 300) runs of 2-4 worterbuch-client connections over the unix socket incrementing one counter.",
         "The harness owns the schedule only at request granularity on the direct core; interleavings inside the server are sampled by the threaded part (thread schedules are not seedable). Carried version u64::MAX is excluded (D17).",
         "property-based testing: exhaustive interleaving enumeration + proptest programs/schedules with a decision-table + history-invariant oracle; threaded stress validation",
         "DESIGN.md §5 C02",
     ),
     "C03": (
-        "core",
+        "core+wire",
         "exploration",
-        "Model-based random histories (60 k quick) of writes interleaved with subscribe/psubscribe (all unique x live-only combinations), unsubscribe and session ends by up to 3 clients; every receiver is drained after every request and compared with the model's expected events per subscription and key (sequence per key), snapshots are compared on subscribe, ended subscriptions must stay silent, and snapshot folded with events must equal pget(pattern) after every request. Sampled, no absence claim.",
-        "Event order across requests is fixed by construction (drain after each request); the forwarding tasks of a socket session are not part of this engine (see C13/C17 for the wire). Known finding D3 (K/# vs K) is tolerated only on exactly that shape.",
+        "Model-based random histories (60 k quick) of writes interleaved with subscribe/psubscribe (all unique x live-only combinations), unsubscribe and session ends by up to 3 clients; every receiver is drained after every request and compared with the model's expected events per subscription and key (sequence per key), snapshots are compared on subscribe, ended subscriptions must stay silent, and snapshot folded with events must equal pget(pattern) after every request. Wire part (3 000 cases quick): 2-3 TCP / unix socket sessions on the whole in-process server write, subscribe, psubscribe, unsubscribe and leave; every subscription must receive exactly the snapshot and events the model predicts per request (per-key sequences), ended subscriptions stay silent. Sampled, no absence claim.",
+        "Event order across requests is fixed by construction (drain after each request); the wire part reaches the per-subscription forwarding tasks of a socket session; there an event counts as missing only after >= 100 later answered requests of the same session over >= 10 s, and the server's own $SYS events are not modelled. Known finding D3 (K/# vs K) is tolerated only on exactly that shape.",
         "property-based testing: proptest random histories against a reference model of subscriptions (per-request event multiset/sequence oracle + fold == pget metamorphic check)",
         "DESIGN.md §5 C03",
     ),
@@ -56,18 +56,18 @@ CHECKS = {
         "DESIGN.md §5 C05",
     ),
     "C06": (
-        "core",
+        "core+wire",
         "exploration",
-        "Every sequence of length <= 5 (thorough: 6) over lock/acquire/release/disconnect by 3 clients on one key (271 k sequences, exhaustive for that scope) plus 100 k random histories with 4 clients and nested keys; after every request the answer, the state (pending/granted/cancelled) of every outstanding acquire request and the one-holder invariant (clients told they hold the key == model holder, at most one) are checked.",
+        "Every sequence of length <= 5 (thorough: 6) over lock/acquire/release/disconnect by 3 clients on one key (271 k sequences, exhaustive for that scope) plus 100 k random histories with 4 clients and nested keys; after every request the answer, the state (pending/granted/cancelled) of every outstanding acquire request and the one-holder invariant (clients told they hold the key == model holder, at most one) are checked. Wire part (2 100 cases quick): 2-4 TCP / unix socket sessions lock, acquireLock, releaseLock and end for generated reasons; answers, the acknowledgement of waiting acquireLock requests exactly at the model's hand-over (nothing unrequested in a session's inbox after one more round trip), and the free locks after every session end are compared with the lock-queue model.",
         "Release by a client that is currently waiting is not generated (statement silent). The harness owns the schedule at request granularity.",
         "property-based testing: exhaustive small-scope enumeration + proptest histories against a lock-queue reference model with a one-holder invariant",
         "DESIGN.md §5 C06",
     ),
     "C07": (
-        "core",
+        "core+wire",
         "exploration",
-        "Model-based histories (60 k free-form + 60 k structured scenarios quick) of up to 4 clients registering overlapping grave goods / last wills (CAS, buried, $SYS and invalid targets), subscribing, locking, opening publish streams and leaving in generated order; after every request the whole store incl. $SYS, all remaining subscriptions' events (bury before will per key), ls lists, locks and pending acquires are compared with the model's session-end procedure.",
-        "Session end = the core's `disconnected` call (what every transport invokes). Last wills aimed at the leaving client's own $SYS entries and ill-typed registrations (D8) are excluded by construction and counted.",
+        "Model-based histories (120 k free-form + 120 k structured scenarios quick) of up to 4 clients registering overlapping grave goods / last wills (CAS, buried, $SYS and invalid targets), subscribing, locking, opening publish streams and leaving in generated order; after every request the whole store incl. $SYS, all remaining subscriptions' events (bury before will per key), ls lists, locks and pending acquires are compared with the model's session-end procedure. Wire part (3 000 cases quick): 2-4 sessions on the TCP and unix-socket endpoints of the whole in-process server register, lock and end for nine reasons (close, half close, reset, not JSON, unknown message, null, invalid UTF-8, unsupported protocol version, refused authorization); a standing observer session compares user keys, CAS versions, the $SYS/clients subtree, its # subscription's events up to a marker, lock hand-overs and free locks with the model after every session end.",
+        "Core parts: session end = the core's `disconnected` call. Wire part: the end of a session counts as processed when the client's own $SYS entries are gone (polled); a harness-side answer timeout is inconclusive; the websocket transport is not driven. Last wills aimed at the leaving client's own $SYS entries and ill-typed registrations (D8) are excluded by construction and counted.",
         "property-based testing: proptest random + structured histories against a reference model of the session-end procedure (full read-back + event oracle)",
         "DESIGN.md §5 C07",
     ),
